@@ -30,14 +30,17 @@ META = dict(
          "ended by a jesse exception is judged as a prefix. Model: fee 0, one symbol, wallet relative to the cycle start.",
     design_ref="4/C06")
 
-KINDS_Q = ["ladder", "over", "sized", "half", "near", "wrong", "tf5", "fast", "two", "sized"]
+KINDS_Q = ["ladder", "over", "sized", "fast2", "near", "wrong", "tf5", "fast", "two", "sized", "half", "fast2"]
 
 
 def run(ctx):
     ctx.assumptions += ["futures account, cross margin (no liquidations), 1m and 5m trading routes, 1-2 symbols sharing one wallet, both simulators",
                         "prices on a tick lattice, integer quantities, dyadic fee rates: trade PnL and wallet are exact multiples of "
                         "tick/fee-denominator and are compared exactly after rounding to that lattice",
-                        "position size before/after each fill as reported by Position (C03 covers its arithmetic)"]
+                        "position size before/after each fill as reported by Position (C03 covers its arithmetic)",
+                        "fill time = minute of the 1m candle being matched when the order filled (timestamp of the partial candle, "
+                        "checked to lie in the candles handed to the matching function with a range that contains the fill price); "
+                        "market orders: end of the last matched minute/chunk"]
     samples = []
     # ---------------------------------------------------------------- M
     jobs = [("tree model, menus without wrong-side/oversize rows, all C06 invariants",
@@ -94,7 +97,7 @@ def run(ctx):
                         "actions": [a["a"] for a in cex[0][2]],
                         "events": [{k: v for k, v in e.items() if k != "act"} for e in t0["ev"] if e["k"] in ("fillb", "hook", "fille", "end")][:16]})
     # ---------------------------------------------------------------- T
-    items = K.vivo_items(ctx, ctx.pick(130, 1500), KINDS_Q, ctx.pick(240, 400))
+    items = K.vivo_items(ctx, ctx.pick(144, 1500), KINDS_Q, ctx.pick(240, 400))
     traces, by_id = K.run_vivo(ctx, items)
     bad_t, st_t = K.judge(ctx, "TraceHooksTrades", traces, "T", by_id, parts=ctx.pick(8, 14))
     for t in traces + sim_traces:
